@@ -287,7 +287,7 @@ pub fn jsonify_value(orig: &Shape, js: &Shape, v: &Value) -> Value {
             let out: Vec<(Value, Value)> = pairs
                 .iter()
                 .enumerate()
-                .map(|(i, (_, x))| (Value::Str(format!("k{:04}", i)), jsonify_value(ov, jv, x)))
+                .map(|(i, (_, x))| (Value::Str(json_key(i)), jsonify_value(ov, jv, x)))
                 .collect();
             Value::Map(out)
         }
@@ -311,6 +311,16 @@ pub fn jsonify_value(orig: &Shape, js: &Shape, v: &Value) -> Value {
             Value::Variant(*pos, Box::new(p))
         }
         _ => v.clone(),
+    }
+}
+
+/// i-th key of a JSON-faithful map: unique and ascending; starts with the empty string and
+/// one-byte keys, then longer ones
+pub fn json_key(i: usize) -> String {
+    match i {
+        0 => String::new(),
+        1..=9 => ((b'a' + i as u8 - 1) as char).to_string(),
+        _ => format!("k{:04}", i),
     }
 }
 
